@@ -100,8 +100,21 @@ func buildRunModel(r *an.Run) *runModel {
 			}
 			fromRead := true
 			for _, leaf := range returnedLeaves(h, i, 0) {
-				if !an.IsNilConst(leaf) && !derivesFromAcross(leaf, readContent) {
-					fromRead = false
+				// the bytes handed back are the very bytes that were read (not a normalised / trimmed copy:
+				// they are echoed by --print-only and diffed against by --diff)
+				if !an.IsNilConst(leaf) {
+					same := false
+					for _, pl := range phiLeaves(leaf) {
+						if pl == readContent {
+							same = true
+						} else if !an.IsNilConst(pl) {
+							same = false
+							break
+						}
+					}
+					if !same {
+						fromRead = false
+					}
 				}
 			}
 			if ex := an.ExtractOf(hc, i); fromRead && len(ex) > 0 {
@@ -109,6 +122,17 @@ func buildRunModel(r *an.Run) *runModel {
 			}
 		}
 		if m.content == nil {
+			for i := 0; h != nil && i < h.Signature.Results().Len(); i++ {
+				if an.ShortType(h.Signature.Results().At(i).Type()) != "[]byte" {
+					continue
+				}
+				for _, leaf := range returnedLeaves(h, i, 0) {
+					if !an.IsNilConst(leaf) && derivesFromAcross(leaf, readContent) {
+						r.Fail(short(f)+"|model|loaded-bytes-are-the-bytes-read", hc.Pos(), "%s hands back bytes that are computed from what os.ReadFile returned (normalised, trimmed, converted) instead of those bytes themselves: they are what --print-only echoes for an unmatched file and what --diff compares against, so they must be the file's bytes", short(h))
+						return nil
+					}
+				}
+			}
 			return bad("the bytes read from the file as a result of the loading helper")
 		}
 		if p, isParam := an.Unwrap(m.filename).(*ssa.Parameter); isParam && an.Actual(p) != nil {
